@@ -14,6 +14,8 @@
 //	for _, opt := range opts { opt(&w) }                   (exactly)
 //	w.<FieldA>(w.<FieldB>)                                 edge fields[A] -> fields[B]
 //	w.<FieldA>(func(...) ... { return w.<FieldB>(...) })   edge fields[A] -> fields[B]  (adapter dropping arguments)
+//	x := w.<Field>   |   x := func(...) ... { return w.<Field>(...) }
+//	    a local defined once; `x` in callee / argument / adapter-callee position stands for its definition
 //
 // Anything else makes it exit 1 (fail closed): the obligation is then reported as not shown.
 package main
@@ -181,7 +183,13 @@ func main() {
 		}
 	}
 
-	// ---- remaining statements: subscriptions
+	// ---- remaining statements: subscriptions, and single-definition locals bound to what a
+	// subscription may take as its argument (`x := w.<Field>` or `x := func(...) { return w.<Field>(...) }`).
+	// Such a local is resolved to its defining expression wherever it is used. The statement forms
+	// accepted below leave no room for a second assignment to it or for taking its address (both
+	// would be "not a subscription call" / "unknown argument shape"), and `w` itself is not written
+	// after the options loop, so evaluating `w.<Field>` at the definition or at the use is the same.
+	locals := map[string]ast.Expr{}
 	wField := func(e ast.Expr) (string, bool) {
 		sel, ok := e.(*ast.SelectorExpr)
 		if !ok {
@@ -196,28 +204,30 @@ func main() {
 		}
 		return sel.Sel.Name, true
 	}
-	type edge struct{ a, b string }
-	var edges []edge
-	for _, st := range stmts[2:] {
-		es, ok := st.(*ast.ExprStmt)
-		if !ok {
-			fail("%s: statement is not a subscription call", pos(st))
-		}
-		call, ok := es.X.(*ast.CallExpr)
-		if !ok || len(call.Args) != 1 || call.Ellipsis != token.NoPos {
-			fail("%s: statement is not a one-argument call", pos(st))
-		}
-		a, ok := wField(call.Fun)
-		if !ok {
-			fail("%s: callee is not %s.<Field>", pos(st), wName)
-		}
-		var b string
-		switch arg := call.Args[0].(type) {
-		case *ast.SelectorExpr:
-			b, ok = wField(arg)
-			if !ok {
-				fail("%s: argument is not %s.<Field>", pos(st), wName)
+	// resolve follows an identifier that names a local of the form above (not shadowed by one of `shadow`).
+	resolve := func(e ast.Expr, shadow map[string]bool) ast.Expr {
+		for i := 0; i < 8; i++ {
+			id, ok := e.(*ast.Ident)
+			if !ok || shadow[id.Name] {
+				return e
 			}
+			d, ok := locals[id.Name]
+			if !ok {
+				return e
+			}
+			e = d
+		}
+		return e
+	}
+	// consumer gives the wireFuncs field an argument expression hands the event to.
+	consumer := func(at ast.Node, e ast.Expr) string {
+		switch arg := resolve(e, nil).(type) {
+		case *ast.SelectorExpr:
+			b, ok := wField(arg)
+			if !ok {
+				fail("%s: argument is not %s.<Field>", pos(at), wName)
+			}
+			return b
 		case *ast.FuncLit:
 			if len(arg.Body.List) != 1 {
 				fail("%s: adapter function has more than one statement", pos(arg))
@@ -230,20 +240,68 @@ func main() {
 			if !ok {
 				fail("%s: adapter function does not return a call", pos(arg))
 			}
-			b, ok = wField(inner.Fun)
+			params := map[string]bool{}
+			for _, f := range arg.Type.Params.List {
+				for _, n := range f.Names {
+					params[n.Name] = true
+				}
+			}
+			if params[wName] {
+				fail("%s: adapter parameter shadows %s", pos(arg), wName)
+			}
+			b, ok := wField(resolve(inner.Fun, params))
 			if !ok {
 				fail("%s: adapter function does not call %s.<Field>", pos(arg), wName)
 			}
 			// adapter arguments must be plain parameters of the adapter (no other component is reached)
 			for _, ia := range inner.Args {
-				if _, ok := ia.(*ast.Ident); !ok {
+				id, ok := ia.(*ast.Ident)
+				if !ok {
 					fail("%s: adapter passes a non-parameter expression", pos(ia))
 				}
+				if !params[id.Name] {
+					if _, isLocal := locals[id.Name]; isLocal || id.Name == wName || id.Name == optsName || isComp[id.Name] {
+						fail("%s: adapter passes %s, which is not one of its parameters", pos(ia), id.Name)
+					}
+				}
 			}
+			return b
 		default:
-			fail("%s: unknown argument shape %T", pos(st), arg)
+			fail("%s: unknown argument shape %T", pos(at), arg)
 		}
-		edges = append(edges, edge{a, b})
+		return ""
+	}
+	type edge struct{ a, b string }
+	var edges []edge
+	for _, st := range stmts[2:] {
+		if as, ok := st.(*ast.AssignStmt); ok {
+			if as.Tok != token.DEFINE || len(as.Lhs) != 1 || len(as.Rhs) != 1 {
+				fail("%s: statement is neither a subscription call nor `x := <adapter>`", pos(st))
+			}
+			id, ok := as.Lhs[0].(*ast.Ident)
+			if !ok || id.Name == "_" || id.Name == wName || id.Name == optsName || isComp[id.Name] {
+				fail("%s: local definition has an unexpected left-hand side", pos(st))
+			}
+			if _, dup := locals[id.Name]; dup {
+				fail("%s: local %s is defined twice", pos(st), id.Name)
+			}
+			consumer(st, as.Rhs[0]) // the bound expression must itself be an understood consumer
+			locals[id.Name] = resolve(as.Rhs[0], nil)
+			continue
+		}
+		es, ok := st.(*ast.ExprStmt)
+		if !ok {
+			fail("%s: statement is not a subscription call", pos(st))
+		}
+		call, ok := es.X.(*ast.CallExpr)
+		if !ok || len(call.Args) != 1 || call.Ellipsis != token.NoPos {
+			fail("%s: statement is not a one-argument call", pos(st))
+		}
+		a, ok := wField(resolve(call.Fun, nil))
+		if !ok {
+			fail("%s: callee is not %s.<Field>", pos(st), wName)
+		}
+		edges = append(edges, edge{a, consumer(st, call.Args[0])})
 	}
 	if len(edges) == 0 {
 		fail("no subscription found")
